@@ -143,12 +143,18 @@ theorem pkg_inventory_all_guarded :
   decide
 
 /-- pooled package-level objects: in the reviewed `sync.Pool` inventory — compared with the one
-re-extracted from the sources on every run — no function puts an object into a pool twice on one
-path, and every Put is reached only when the preceding `Close` of the pooled object succeeded
-(`!(err!=nil)`), i.e. not on an error branch. -/
+re-extracted from the sources on every run — (1) no function puts an object into a pool twice on one
+path, (2) every Put is reached only when the preceding `Close` of the pooled object succeeded
+(`!(err!=nil)` among its conditions, i.e. not on an error branch) and only when the `closed` flag was
+not yet set, and (3) every Put site — all of them sit in Close-like functions, which a caller may run
+twice — is protected by a persisting `closed` flag (the guard is `flag:r.closed`, a field of the
+pointer receiver, or `flag:closed`, a variable captured by the closure; `none` or
+`flag-on-value-receiver:…` would be C18-F3 again). -/
 theorem pool_inventory_put_once :
     ∀ e ∈ poolInventory, e.2.2.2.2.2.1 ≤ 1 ∧
-      (e.2.2.1 = "put" → e.2.2.2.2.2.2.1 = "!(err!=nil)" ∨ e.2.2.2.2.2.2.1 = "!(err!=nil)&!isLZW") := by
+      (e.2.2.1 = "put" →
+        (e.2.2.2.2.2.2.1 = "!(err!=nil)&!(r.closed)" ∨ e.2.2.2.2.2.2.1 = "!(closed)&!(err!=nil)&!isLZW") ∧
+        (e.2.2.2.2.2.2.2 = "flag:r.closed" ∨ e.2.2.2.2.2.2.2 = "flag:closed")) := by
   decide
 
 end PdfVerif.C18concX
